@@ -20,6 +20,7 @@ DAGS = {
     "deepvee": {"A": [], "A2": ["A"], "B": [], "C": ["A2", "B"]},
     "two": {"P": [], "Q": ["P"]},
     "deep_and_shallow": {"A": [], "B": ["A"], "C": ["B"], "X": [], "D": ["C", "X"]},
+    "side_branch": {"A": [], "B": ["A"], "X": [], "D": ["A", "X"], "Y": ["X"]},  # B / Y never apply to a D
 }
 
 
@@ -177,6 +178,14 @@ def scenarios():
             yield dict(classes=dag, methods=methods, call=dict(pos=call), family="vee2/2pos")
             methods = [dict(name="m0", params=[dict(name="x", kind="pos", type=t1[0]), dict(name="k", kind="kw", type=t1[1])]), dict(name="m1", params=[dict(name="x", kind="pos", type=t2[0]), dict(name="k", kind="kw", type=t2[1])])]
             yield dict(classes=dag, methods=methods, call=dict(pos=call[:1], kw={"k": call[1]}), family="vee2/pos+kw")
+    # calls made with keyword arguments only; further methods needing an extra keyword / positional arguments
+    dag = DAGS["chain"]
+    kwm = lambda name, *ps: dict(name=name, params=[dict(name=n_, kind=k_, type=t_) for n_, k_, t_ in ps])
+    for t0, t1 in itertools.product(["A", "B", "object"], repeat=2):
+        for c in ("A", "B", "C"):
+            yield dict(classes=dag, methods=[kwm("m0", ("k", "kw", t0)), kwm("m1", ("k", "kw", t1), ("j", "kw", "object"))], call=dict(pos=[], kw={"k": c}), family="kwonly/extra_required_keyword")
+            yield dict(classes=dag, methods=[kwm("m0", ("k", "kw", t0)), kwm("m1", ("x", "pos", "object"), ("k", "kw", t1))], call=dict(pos=[], kw={"k": c}), family="kwonly/extra_positional")
+            yield dict(classes=dag, methods=[kwm("m0", ("k", "kw", t0), ("j", "kw", t1)), kwm("m1", ("k", "kw", t1)), kwm("m2", ("j", "kw", t0))], call=dict(pos=[], kw={"k": c, "j": c}), family="kwonly/two_keywords")
     # optional trailing parameter / repeated signature / arity-filtered third method (F-lvl variant)
     dag = DAGS["deepvee"]
     yield dict(classes=dag, methods=[dict(name="m0", params=[dict(name="x", kind="pos", type="A")]), dict(name="m1", params=[dict(name="x", kind="pos", type="B")]), dict(name="m2", params=[dict(name="x", kind="pos", type="A2"), dict(name="k", kind="kw", type="object")])], call=dict(pos=["C"]), family="arity-filtered")
